@@ -8,4 +8,15 @@ Conf == [allow |-> allow, n |-> initLen, tomb |-> initTomb, nw |-> Cardinality(w
 BehaviourExport == quiesced => PrintT(<<"BEH", ToJson([conf |-> Conf, steps |-> hist])>>)
 (* one witness behaviour per distinct final state in which a named deviation fired (replayed on the real code) *)
 DevExport == (quiesced /\ dev # {}) => PrintT(<<"BEH", ToJson([conf |-> Conf, steps |-> hist, dev |-> dev])>>)
+(* Simulation: TLC picks uniformly among SUCCESSOR STATES; Begin has |Kinds| x |revisions| argument choices and would
+   swamp RC / Cas / Ack (all writers would begin before anything commits, so parents created by other writers and
+   late-starting requests would be rare).  SimNext draws Begin's arguments with RandomElement: one successor per
+   (writer, action kind).  Sim_DocUpdate_burst.cfg keeps the plain Next: there
+   every writer begins early and the contention on the CAS window is highest.  Both mixes are replayed. *)
+LegalBegins == {kp \in Kinds \X (DOMAIN tree \cup {0}) : (kp[1] = "del" => kp[2] # 0) /\ (kp[1] = "push" /\ kp[2] = 0 => allow)}
+SimNext ==
+  \/ \E w \in Writers : \/ LET kp == RandomElement(LegalBegins) IN Begin(w, kp[1], kp[2])
+                        \/ ReadAndCompute(w) \/ CasWrite(w) \/ Ack(w)
+  \/ Quiesce
+SimSpec == Init /\ [][SimNext]_vars
 =============================================================================
